@@ -221,7 +221,7 @@ func checkC20Weights(c C20Case) (o Outcome) {
 	got := map[string]map[string]float64{} // row name → date → weight
 	var rowOrder []string
 	for _, rec := range recs[1:] {
-		name := rec[0]
+		name := strings.TrimSpace(rec[0]) // an indented label is the same label
 		if got[name] != nil {
 			o.Violation = V("duplicate-row", "weights row %q appears twice\n%s", name, clip(rw.Stdout, 1500))
 			return o
